@@ -712,7 +712,15 @@ def r5_group_buffers(ctx):
     rd = ctx.rd(f)
     loops = [n for n in g.nodes if n.kind == 'for' and not n.dup and not any(fr.kind == 'loop' for fr in n.frames)]
     need(len(loops) == 3, 'C13.R5: expected three top-level loops in _group_labeled_lines, found %d' % len(loops))
-    loops.sort(key=lambda n: n.lineno)
+    # in the order the function executes them (line numbers do not tell: an expanded helper keeps the lines of where it was written)
+    order = {}
+
+    def _pre(node):
+        order[id(node)] = len(order)
+        for ch in ast.iter_child_nodes(node):
+            _pre(ch)
+    _pre(f.node)
+    loops.sort(key=lambda n: order.get(id(n.ast), 10 ** 9))
     # -- loops 1 and 2: buffer `current`
     for li, head in enumerate(loops[:2]):
         entry, cut = graph.region_of_loop(g, head)
@@ -734,7 +742,10 @@ def r5_group_buffers(ctx):
         resets = [d.node for d in rd.defs_of('current') if graph.in_loop_body(d.node, head.ast) and isinstance(d.value, ast.List) and not d.value.elts] + fresh_with_item
         flushes = [n for n in g.nodes if not n.dup and any(isinstance(c.func, ast.Attribute) and c.func.attr == 'append' and c.args and _mentions(c.args[0], 'current') and not is_name(c.func.value, 'current') for c in node_calls(n))]
         empty_guard = [n for n in g.nodes if n.kind == 'branch' and n.attrs['test'].kind == 'test' and graph.in_loop_body(n, head.ast) and
-                       any(isinstance(fa.expr, ast.Compare) and is_name(fa.expr.left, 'state') and isinstance(fa.expr.ops[0], ast.Is) and fa.polarity is True for fa in graph.facts_of(n.attrs['test'].ast, n.attrs['polarity']))]
+                       any(isinstance(fa.expr, ast.Compare) and isinstance(fa.expr.left, ast.Name) and isinstance(fa.expr.ops[0], ast.Is) and fa.polarity is True and
+                           isinstance(fa.expr.comparators[0], ast.Constant) and fa.expr.comparators[0].value is None and
+                           any(graph.in_loop_body(d.node, head.ast) for d in rd.defs_of(fa.expr.left.id))      # the marker of the open group, whatever it is called
+                           for fa in graph.facts_of(n.attrs['test'].ast, n.attrs['polarity']))]
         for r in resets:
             wit = graph.must_pass([entry], lambda x, r=r: x is r, through=[fl for fl in flushes if graph.in_loop_body(fl, head.ast)] + empty_guard, efilter=graph.normal_only)
             rep.ob('C13.R5', ctx.loc(f, r.ast), 'pass %d: %s' % (li + 1, ctx.src(r.ast)), wit is None,
